@@ -130,7 +130,7 @@ add("C36", EX, "Every program of <= 2 (thorough 3) row-wise steps over a typed a
     "bounded exhaustive typed-program enumeration against pandas")
 add("C42", EX, "Every 1- and 2-step program over the union of the row-wise, reduction, groupby, join, sort/shuffle and window alphabets on 6 frames x up to 8 partitioning/division configurations is built lazily; its ._meta is compared (type, columns, dtypes, names, index dtype) with the computed result and with each separately computed partition; disagreements are keyed by operation and exact dtype pair.", "5/C42", DF_NOTE,
     "bounded exhaustive program enumeration, lazy metadata vs computed whole and per-partition objects")
-add("C43", MC, "Every program of <= 3 (thorough 3-4) steps over an alphabet built to trigger projection/filter pushdown, assign merging, filter rewriting and fusion (shared sub-expressions, shadowing assigns, reductions inside predicates) is optimized under a watchdog (non-termination / 'does not converge' are violations); baseline (lowered-only), optimized and re-optimized expressions are executed without implicit optimisation and compared with pandas; the first wrong optimizer stage and a delta-debugged minimal program name each finding.", "5/C43", DF_NOTE,
+add("C43", EX, "Every program of <= 3 (thorough 3-4) steps over an alphabet built to trigger projection/filter pushdown, assign merging, filter rewriting and fusion (shared sub-expressions, shadowing assigns, reductions inside predicates) is optimized under a watchdog (non-termination / 'does not converge' are violations); baseline (lowered-only), optimized and re-optimized expressions are executed without implicit optimisation and compared with pandas; the first wrong optimizer stage and a delta-debugged minimal program name each finding.", "5/C43", DF_NOTE,
     "bounded exhaustive DAG-program enumeration with stage-wise materialisation of the optimizer pipeline")
 
 
